@@ -172,10 +172,17 @@ package keeper
 //@ smt (define-fun qAbsent ((q Slc_Bytes) (n Int) (d (Array Bytes Bool))) Bool
 //@       (forall ((p Int)) (! (=> (and (<= (off_Slc_Bytes q) p) (< p (+ (off_Slc_Bytes q) n))) (not (select d (select (arr_Slc_Bytes q) p)))) :pattern ((select (arr_Slc_Bytes q) p)))))
 
+// each of the first n entries of q has a record in d
+//@ smt (define-fun qPresent ((q Slc_Bytes) (n Int) (d (Array Bytes Bool))) Bool
+//@       (forall ((p Int)) (! (=> (and (<= (off_Slc_Bytes q) p) (< p (+ (off_Slc_Bytes q) n))) (select d (select (arr_Slc_Bytes q) p))) :pattern ((select (arr_Slc_Bytes q) p)))))
+
 // Representation invariant of the group (RI), the part EndBlocker relies on for never failing:
 //   STORED    the four singletons exist (genesis writes them)
 //   ON_RECS   every OnBoarding entry has a record with status ON_BOARDING
 //   OFF_RECS  every OffBoarding entry has a record with status OFF_BOARDING (hence the two queues are disjoint)
+//   MEMBER_RECS the proposer and every listed voter have a record (established by the genesis import, kept by
+//             ProcessRelayerRequest/recs_kept, NewVoter/others_untouched and by proposer_is_member / voters_are_members below:
+//             the successor of a removed proposer and every voter that stays listed survive the removal, whatever is queued)
 //   SURVIVOR  if the proposer is being removed, some voter is not: this is what `len(OffBoarding) <= len(Voters)` gives
 //             for a duplicate-free queue of members and a duplicate-free member list (pigeonhole; paper argument, see NOTES.md)
 // C01 rests on the group invariant these functions maintain (members pairwise distinct, queues emptied when applied):
@@ -202,6 +209,9 @@ package keeper
 //@ ensures due_queues_emptied: err == nil && DUE ==> len(st.relayer.Queue.OnBoarding) == 0 && len(st.relayer.Queue.OffBoarding) == 0
 //@ ensures on_boarded_activated: err == nil && DUE && ON_RECS && OFF_RECS ==> qStatusBelow(oldOn, len(oldOn), mapdom(st.relayer.Voters), mapval(st.relayer.Voters), ACT)
 //@ ensures off_boarded_removed: err == nil && DUE ==> qAbsent(oldOff, len(oldOff), mapdom(st.relayer.Voters))
+//@ let MEMBER_RECS = (old(has(st.relayer.Voters, st.relayer.Relayer.Proposer)) && qPresent(oldV, len(oldV), oldDom))
+//@ ensures proposer_is_member: err == nil && DUE && MEMBER_RECS && ON_RECS ==> has(st.relayer.Voters, st.relayer.Relayer.Proposer)
+//@ ensures voters_are_members: err == nil && DUE && MEMBER_RECS && ON_RECS ==> qPresent(st.relayer.Relayer.Voters, len(st.relayer.Relayer.Voters), mapdom(st.relayer.Voters))
 //@ ensures never_fails: STORED && ON_RECS && OFF_RECS && SURVIVOR && BOUNDS ==> err == nil
 //@ modifies st.relayer.Relayer, st.relayer.Queue, st.relayer.Voters
 //@ loop 0 invariant idx: -1 <= rangeindex && rangeindex < len(queue.OnBoarding)
@@ -210,4 +220,6 @@ package keeper
 //@ loop 1 invariant idx: -1 <= rangeindex && rangeindex < len(queue.OffBoarding)
 //@ loop 1 invariant on_act: ON_RECS && OFF_RECS && len(queue.OnBoarding) > 0 ==> qStatusBelow(queue.OnBoarding, len(queue.OnBoarding), mapdom(st.relayer.Voters), mapval(st.relayer.Voters), ACT)
 //@ loop 1 invariant removed: qAbsent(queue.OffBoarding, rangeindex + 1, mapdom(st.relayer.Voters))
+//@ loop 1 invariant kept: forallb(a, old(has(st.relayer.Voters, a)) && !has(*set, a) ==> has(st.relayer.Voters, a))
+//@ loop 1 invariant set_true: forallb(a, has(*set, a) ==> (*set)[a])
 //@ loop 1 invariant set_sub: forallb(a, qLacks(queue.OffBoarding, len(queue.OffBoarding), a) ==> !has(*set, a))
